@@ -54,3 +54,11 @@ Print Assumptions C06_demand_scan.
 
 Theorem C06_demand_pull : forall s x, In x (it_next_demand s) -> x = S (i_idx s) /\ i_ok s = true.
 Proof. exact it_next_demand_bound. Qed.
+
+(* the bound as the property states it: when no wait call has carried an index beyond the position after the
+   highest delivered one (i + 1: C06_demand_scan, C06_demand_pull; At(i) carries i), at most i + 1 + 1000 digits
+   have been obtained from the source, for every block size up to 1000, every schedule and every number of readers *)
+Theorem C06_bound : forall B K valid s i, 0 < B <= 1000 -> reach B K valid s -> imax s <= i + 1 ->
+  plocal s <= i + 1 + 1000.
+Proof. exact readahead_bound. Qed.
+Print Assumptions C06_bound.
